@@ -29,6 +29,11 @@ class Config:
         self.layer_raises = {}                # filled by summaries: 'H5Group.get_dataset' -> {'KeyError'}
         self.opaque_modules = {"nixio.util.units"}
         self.compose = True
+        self.no_inline = False
+        self.all_branches = False
+        self.coarse = None
+        self.sig_mode = "full"
+        self.sig_keep = lambda e: e.kind in ("layer", "raw") and not e.op.split(".")[-1] in READ_MEMBERS
         self.comp_cache = {}
         self.comp_stats = {}
         self.comp_max_paths = 20000
@@ -60,6 +65,9 @@ class Config:
 
 
 ABSENT = V(("absent",))
+READ_MEMBERS = {"get_attr", "get_data", "has_data", "__contains__", "__len__", "__iter__", "get_dataset", "get_by_name",
+                "get_by_id", "get_by_id_or_name", "get_by_pos", "has_by_id", "open_group", "shape", "dtype", "group",
+                "parent", "read_data", "find_children", "__getitem__", "get", "values", "keys", "items", "__init__"}
 
 
 class InterpBase:
@@ -89,6 +97,12 @@ class InterpBase:
     def decide(self, atom, domain=(True, False)):
         if atom in self.facts:
             return self.facts[atom]
+        if self.cfg.all_branches:
+            v = list(domain)[0]
+            if atom[0] in ("lraise", "oraise", "xraise", "rraise", "enumvalid"):
+                v = False if atom[0] != "enumvalid" else True
+            self.facts[atom] = v
+            return v
         if atom in self.pending:
             v = self.pending.pop(atom)
             self.facts[atom] = v
@@ -103,7 +117,7 @@ class InterpBase:
             if val:
                 self.valof[a] = b
             else:
-                self.notvals.setdefault(a, set()).add(b)
+                self.notvals[a] = frozenset(self.notvals.get(a, ())) | {b}
         elif k == "isinst" and val:
             _, t, cname = atom
             self.refined[t] = frozenset([obj(cname)])
@@ -151,6 +165,8 @@ class InterpBase:
     def truth(self, v):
         """decide the truthiness of value v on this path (may raise Need)"""
         t = v.t
+        if self.cfg.all_branches and t[0] != "const":
+            return True
         h = t[0]
         if h == "const":
             return bool(t[1])
@@ -345,6 +361,8 @@ class Interp(InterpBase, ExprMixin, AttrMixin, CallMixin, StmtMixin, CompMixin):
                 if isinstance(n, ast.Assign):
                     for tg in n.targets:
                         if isinstance(tg, ast.Attribute) and isinstance(tg.value, ast.Name) and tg.value.id == sname:
+                            if self.M.lookup(c, tg.attr, "getters") is not None:
+                                continue
                             if isinstance(n.value, ast.Constant):
                                 self.heap[(selfv.t, tg.attr)] = const(n.value.value)
                             elif (selfv.t, tg.attr) in self.heap:
